@@ -248,6 +248,8 @@ def check(rep, F, tier, replay=None):
         rep.floor("reference-script source loops", 2, n_l)
     from ruleutil import boot_attr_rule
     boot_attr_rule(rep, F)
+    from ruleutil import datum_eq_rule
+    datum_eq_rule(rep, F)  # the estimate and the emitted witness set agree on which datums exist
     return rep.finish(
         EXPLANATION,
         ["fees::min_fee / min_script_fee / min_ref_script_fee compute the ledger formulas (C15)", "fake witnesses have the byte size of real ones (fakes.rs constants)", "the signer union being complete per source is C18's matrix"],
